@@ -67,7 +67,7 @@ struct CallResult { ca: String, kind: &'static str, roa: Option<String>, ok: boo
 fn worker_ops(sys: &Sys, rng: &mut Rng, widx: u64, n: u64, results: &Mutex<Vec<CallResult>>) {
     for k in 0..n {
         let ca = *rng.pick(&CAS);
-        let kind = rng.weighted(&[40, 12, 10, 12, 10, 8, 8, 8]);
+        let kind = rng.weighted(&[40, 12, 10, 12, 10, 8, 8, 8, 7]);
         match kind {
             0 => { // add a ROA nobody else adds (accepted unless the CA does not hold the prefix)
                 let atom = match ca { "a" => rng.below(8), "b" => rng.below(4), "c" => rng.below(2), _ => 4 + rng.below(2) };
@@ -85,12 +85,62 @@ fn worker_ops(sys: &Sys, rng: &mut Rng, widx: u64, n: u64, results: &Mutex<Vec<C
             4 => { let ok = sys.keyroll_init(ca).is_ok(); results.lock().unwrap().push(CallResult { ca: ca.into(), kind: "keyroll_init", roa: None, ok }); }
             5 => { let ok = sys.keyroll_activate(ca).is_ok(); results.lock().unwrap().push(CallResult { ca: ca.into(), kind: "keyroll_activate", roa: None, ok }); }
             6 => { let ok = sys.republish(false).is_ok(); results.lock().unwrap().push(CallResult { ca: ca.into(), kind: "republish", roa: None, ok }); }
+            8 => { // an RRDP session reset through the admin API while the scheduler stand-in writes RRDP updates
+                let ok = sys.krill.repo_manager().rrdp_session_reset().is_ok();
+                results.lock().unwrap().push(CallResult { ca: ca.into(), kind: "rrdp_session_reset", roa: None, ok });
+            }
             _ => { // the daily snapshot task, run by the scheduler stand-in in parallel with everything else
                 let ok = sys.krill.tasks().schedule(krill::server::mq::Task::UpdateSnapshots, krill::server::mq::now()).is_ok();
                 results.lock().unwrap().push(CallResult { ca: ca.into(), kind: "schedule_update_snapshots", roa: None, ok });
             }
         }
     }
+}
+
+fn sha256_hex(b: &[u8]) -> String { hex::encode(rpki::rrdp::Hash::from_data(b).as_slice()) }
+
+/// What the RRDP files on disk say: (session, serial, snapshot file present with the announced hash, (uri, sha256) of
+/// every <publish> element of that snapshot).
+fn rrdp_on_disk(sys: &Sys) -> Option<(String, u64, bool, Vec<(String, String)>)> {
+    use base64::Engine;
+    let base = sys.opts.dir.join("repo").join("rrdp");
+    let notif = std::fs::read_to_string(base.join("notification.xml")).ok()?;
+    let attr = |txt: &str, name: &str| -> Option<String> { let k = format!("{name}=\""); let a = txt.find(&k)? + k.len(); let b = txt[a..].find('"')? + a; Some(txt[a..b].to_string()) };
+    let session = attr(&notif, "session_id")?;
+    let serial: u64 = attr(&notif, "serial")?.parse().ok()?;
+    let rest = &notif[notif.find("<snapshot")?..];
+    let uri = attr(rest, "uri")?;
+    let hash = attr(rest, "hash")?;
+    let rel = uri.strip_prefix(RRDP_BASE)?.to_string();
+    let Ok(bytes) = std::fs::read(base.join(&rel)) else { return Some((session, serial, false, vec![])) };
+    let hash_ok = sha256_hex(&bytes).eq_ignore_ascii_case(&hash);
+    let snap = String::from_utf8_lossy(&bytes).to_string();
+    let mut out = Vec::new();
+    let mut pos = 0;
+    while let Some(i) = snap[pos..].find("<publish") {
+        let s = pos + i;
+        let close = snap[s..].find('>')? + s;
+        let u = attr(&snap[s..close], "uri")?;
+        let end = snap[close..].find("</publish>")? + close;
+        let b64: String = snap[close + 1..end].chars().filter(|c| !c.is_whitespace()).collect();
+        let bytes = base64::engine::general_purpose::STANDARD.decode(b64).ok()?;
+        out.push((u, sha256_hex(&bytes)));
+        pos = end;
+    }
+    out.sort();
+    Some((session, serial, hash_ok, out))
+}
+
+/// What the publication server holds for its publishers (staged changes included): (uri, sha256), sorted.
+fn repo_content(sys: &Sys) -> Vec<(String, String)> {
+    let mut out = Vec::new();
+    for p in sys.krill.repo_manager().publishers().unwrap_or_default() {
+        if let Ok(d) = sys.krill.repo_manager().get_publisher_details(p) {
+            for f in d.current_files { out.push((f.uri.to_string(), sha256_hex(&f.base64.to_bytes()))); }
+        }
+    }
+    out.sort();
+    out
 }
 
 fn lock_name(ev: &Event) -> (String, Option<String>) { (ev.ns.clone(), ev.scope.clone()) }
@@ -392,13 +442,38 @@ fn run_case(args: &Args, run: u64, seed: u64, w: &mut CaseWriter, jsonl: &mut st
         fresh.is_none() || fresh == live
     };
     if !repo_view_ok { none_lost = false; }
+    // once background work has caught up, the published repository is that of the serial execution: the RRDP files
+    // on disk name the server's current session and serial, the announced snapshot file is there with its hash and
+    // holds exactly what the publication server holds for its publishers (every accepted publication, staged or not)
+    let mut published = json!(null);
+    if completed {
+        let ran = sys.pump(400, 4000).len();
+        let disk_view = rrdp_on_disk(&sys);
+        let stats = sys.krill.repo_manager().repo_stats().ok().map(|st| serde_json::to_value(&st).unwrap());
+        let content = repo_content(&sys);
+        let ok = match (&disk_view, &stats) {
+            (Some((session, serial, hash_ok, files)), Some(st)) =>
+                st["session"].as_str() == Some(session.as_str()) && st["serial"].as_u64() == Some(*serial) && *hash_ok && *files == content,
+            _ => false,
+        };
+        published = json!({"tasks_run_to_catch_up": ran, "notification_read": disk_view.is_some(),
+            "session_matches": disk_view.as_ref().zip(stats.as_ref()).map(|(d, st)| st["session"].as_str() == Some(d.0.as_str())),
+            "serial_matches": disk_view.as_ref().zip(stats.as_ref()).map(|(d, st)| st["serial"].as_u64() == Some(d.1)),
+            "snapshot_file_present_with_hash": disk_view.as_ref().map(|d| d.2),
+            "snapshot_objects": disk_view.as_ref().map(|d| d.3.len()), "server_objects": content.len(),
+            "snapshot_equals_server_content": disk_view.as_ref().map(|d| d.3 == content)});
+        if !ok {
+            none_lost = false;
+            if std::env::var("KV_DEBUG").is_ok() { eprintln!("published repository: {published}"); }
+        }
+    }
     let _ = n_ops;
     let term = format!("mkCase {}%nat {} {} {} {} {} {} {}", n_threads.max(1), coq_list(&lock_events),
         coq_list(&rank.iter().map(|(l, r)| format!("({l}, {r})")).collect::<Vec<_>>()), coq_list(&trace),
         completed, versions_consecutive, none_lost, history_complete);
     let rec_json = json!({"index": w.total, "run": run, "backend": if disk {"disk"} else {"memory"}, "workers": n_workers, "ops_per_worker": n_ops, "threads_seen": n_threads,
         "probe_events": events.len(), "lock_events": lock_events.len(), "entity_trace": trace.len(), "locks": locks.map.len(), "nesting_edges": edges.len(),
-        "new_commands": new_commands, "phase0_listener_failure_after_restart": phase0, "completed": completed, "versions_consecutive": versions_consecutive, "none_lost_or_doubled": none_lost, "history_complete": history_complete, "repository_view_equals_fresh_load": repo_view_ok,
+        "new_commands": new_commands, "phase0_listener_failure_after_restart": phase0, "completed": completed, "versions_consecutive": versions_consecutive, "none_lost_or_doubled": none_lost, "history_complete": history_complete, "repository_view_equals_fresh_load": repo_view_ok, "published_repository_after_catch_up": published,
         "nesting": edges.iter().map(|(a, b)| { let n = |x: &u64| locks.map.iter().find(|(_, id)| *id == x).map(|(s, _)| s.rsplit('/').next().unwrap_or(s).to_string()).unwrap_or_default(); format!("{} -> {}", n(a), n(b)) }).collect::<Vec<_>>(),
         "class": {"completed": completed}});
     use std::io::Write;
